@@ -166,6 +166,26 @@ CLAIMS = {
         technique='Lean 4 proof (invariant by induction over the operation history, refinement to "fresh template") + '
                   'model/implementation correspondence after every operation + fresh-template oracle',
         ref='DESIGN.md §5 C17'),
+    'C18': dict(
+        text='Lean 4 theorems about the interleaving model (Conc.lean: any number of threads calling one shared template object; '
+             'atomic steps = the shared accesses of String.__call__ / cook: test of _v_cooked, lock acquire, _v_blocks := parse, '
+             '_v_cooked := None, release, read of _v_blocks, lazily filled caches whose every writer stores the same value; a '
+             'schedule is ANY list of thread ids), proved by an invariant over every step: inv_init, pcOk_mono, inv_step, inv_run, '
+             'interleaving_sequential (a finished thread holds exactly its solo result, under every schedule, including races to '
+             'compile), never_partially_compiled (publication order: whoever is about to read the program finds the complete '
+             'one), published_program, per_render_cell_races (the historical per-render write on the shared tag falsifies the '
+             'statement: witness schedule W1 W2 R1). Correspondence: shared-access events of every scheduled real run replayed on '
+             'the model (op "conc"): each event must be the model thread\'s next step and the model results the solo results; '
+             'shared-write monitor: rendering a compiled template changes nothing reachable from the template / blocks / command '
+             'table. Oracle: per-thread result == solo result over all single-pre-emption schedules on compiled templates, '
+             'strided + shared-access-targeted + 3-pre-emption + 3-thread schedules racing the cook',
+        note='Trusted: Lean kernel; the model\'s atomic steps are source lines (the shared accesses), tied by event replay and the '
+             'write monitor. Partial: bytecode-level switch points inside one line, C-level atomicity of attribute stores and the '
+             'real lock are runtime behaviour the model cannot exhibit; the line-level scheduler explores schedules (a search), '
+             'only the model is proved',
+        technique='Lean 4 proof (invariant over all schedules of the interleaving model) + event-replay correspondence + '
+                  'shared-write monitor + deterministic line-level scheduler as failing-schedule search',
+        ref='DESIGN.md §5 C18'),
     'C08': dict(
         text='Lean 4 theorems about the interpreter model (Render.lean: namespace stack, lookups with auto-call, '
              'expressions, every block tag, sub-template calls, dtml-return, exceptions, fault plans as part of the '
